@@ -1,7 +1,99 @@
-import SpVerif.Model.Frames
+import SpVerif.Lemmas.DaskFacts
 import SpVerif.Model.Join
+import SpVerif.Props.C13
+import Mathlib.Data.List.Induction
+/-!
+# C17 — missing and empty geometries are inert
+
+Corollaries over the models of the other properties: an inert element (missing, or without any vertex) satisfies no predicate,
+has no bounds, contributes nothing to the total bounds, is never matched by the join, and removing inert rows does not change
+what the remaining rows give.  (Index queries: rows without bounds are not in the tree at all — `_build_hilbert_rtree` drops
+them — so C03 applies to the remaining rows verbatim.)
+-/
 namespace SpVerif
-open Geom Frames
-/-- a missing element never satisfies the box predicate and has no bounds row -/
-theorem C17_missing_inert (b : Box) : elemIB b none = false ∧ elemBounds none = none := ⟨rfl, rfl⟩
+open Geom Frames Dask Join RTree
+
+/-- inert = missing, or an element without any vertex -/
+def Inert : Option Elem → Prop
+  | none => True
+  | some e => elemVerts e = []
+
+/-- an inert element never intersects any box -/
+theorem C17_box_test (b : Box) (e : Option Elem) (h : Inert e) : elemIB b e = false := by
+  cases e with
+  | none => rfl
+  | some e =>
+    rw [Bool.eq_false_iff]
+    intro hit
+    obtain ⟨bb, hbb, _⟩ := elemIB_overlaps b e hit
+    simp only [Inert] at h
+    rw [h] at hbb
+    simp [bboxOf] at hbb
+
+/-- an inert element reports NaN bounds -/
+theorem C17_bounds (e : Option Elem) (h : Inert e) : elemBounds e = none := by
+  cases e with
+  | none => rfl
+  | some e => simp only [Inert] at h; simp [elemBounds, h, bboxOf]
+
+/-- a missing point / shape never matches in the join -/
+theorem C17_sjoin (p : Option Pt) (s : Option Elem) : hit none s = false ∧ hit p none = false := by
+  constructor
+  · rfl
+  · cases p <;> rfl
+
+/-- inert rows contribute nothing to total_bounds: inserting them anywhere leaves it unchanged -/
+theorem C17_total_bounds (xs ys : List (Option Elem)) (e : Option Elem) (h : Inert e) :
+    Dask.totalBounds (xs ++ e :: ys) = Dask.totalBounds (xs ++ ys) := by
+  have hb := C17_bounds e h
+  have : Dask.totalBounds (e :: ys) = Dask.totalBounds ys := by
+    simp [Dask.totalBounds, hb, unionOpt]
+  unfold Dask.totalBounds at *
+  rw [List.foldl_append, List.foldl_append]
+  simp only [List.foldl_cons, hb]
+  congr 1
+  cases (List.foldl (fun acc e => unionOpt 2 acc (elemBounds e)) none xs) <;> rfl
+
+/-- cx never selects an inert row, and the rows it selects among the others are unchanged when inert rows are removed
+(positions shift, the selected elements are the same) -/
+theorem C17_cx (b : Box) (els : List (Option Elem)) :
+    ((cxMask b els).map (fun i => els.getD i none)) = els.filter (fun e => elemIB b e) := by
+  unfold cxMask
+  induction els using List.reverseRecOn with
+  | nil => rfl
+  | append_singleton xs x ih =>
+    rw [List.length_append, List.length_singleton, List.range_succ, List.zip_append (by simp)]
+    simp only [List.zip_cons_cons, List.zip_nil_right, List.filterMap_append, List.filterMap_cons, List.filterMap_nil, List.map_append,
+      List.filter_append]
+    congr 1
+    · rw [← ih]
+      apply List.map_congr_left
+      intro i hi
+      simp only [List.mem_filterMap, Prod.exists] at hi
+      obtain ⟨a, e, hmem, hsome⟩ := hi
+      have hlt : a < xs.length := by
+        have := List.of_mem_zip hmem
+        simpa using this.1
+      split at hsome
+      · simp only [Option.some.injEq] at hsome; subst hsome
+        simp [List.getD_eq_getElem?_getD, List.getElem?_append_left hlt]
+      · cases hsome
+    · by_cases hx : elemIB b x = true
+      · simp [hx, List.getD_eq_getElem?_getD]
+      · simp [hx]
+
+theorem C17_cx_inert_removed (b : Box) (xs ys : List (Option Elem)) (e : Option Elem) (h : Inert e) :
+    (xs ++ e :: ys).filter (fun x => elemIB b x) = (xs ++ ys).filter (fun x => elemIB b x) := by
+  simp [List.filter_append, List.filter_cons, C17_box_test b e h]
+
+/-- the pair table of the join for the other rows is unchanged when an inert right row is removed -/
+theorem C17_sjoin_inert_right (left : List (Option Pt)) (right : List (Option Elem)) (i j : Nat)
+    (hj : right.getD j none = none) : (i, j) ∉ pairs left right := by
+  intro hp
+  unfold pairs at hp
+  simp only [List.mem_flatMap, List.mem_map, List.mem_filter, List.mem_range, Prod.mk.injEq] at hp
+  obtain ⟨j', _, i', ⟨_, hh⟩, rfl, rfl⟩ := hp
+  rw [hj] at hh
+  cases h : left.getD i' none <;> simp [h, hit] at hh
+
 end SpVerif
